@@ -19,19 +19,31 @@
   the decoder dispatches on `symbol[-4:-2]` (`sliceFromEnd x 4 2`) being `ch` (branch table),
   `ng` (ring table), then on `"eps" in symbol`, and otherwise calls `process_atom_symbol`.
 
-  FINDING (recorded, replayed on the real code): the key grammar accepts `E+C` with arbitrarily
-  many digits, but `int()` refuses more than `sys.get_int_max_str_digits()` (4300) digits, so
-  the alphabet symbol `[C+1000…0]` (4301 digits) is in the alphabet and is rejected by the decoder:
-  `C07_long_charge_rejected`, `C07_long_charge_witness`.  Hence `C07_atom_symbols_valid_partial`
-  carries the proviso "at most `Gen.intMaxStrDigits` charge digits", and
-  `C07_atom_symbol_accepted_iff` shows the proviso is exactly what is needed.
+  FINDING F10, REPAIRED in the library.  Before the repair the key grammar of
+  `set_semantic_constraints` accepted `E+C` / `E-C` with arbitrarily many digits, but `int()`
+  refuses more than `sys.get_int_max_str_digits()` (`Gen.intMaxStrDigits` = 4300) digits, so the
+  alphabet symbol `[C+1000…0]` (4301 digits) was in the alphabet and was rejected by the decoder.
+  The repaired validation (`_is_convertible`, mirrored by `validKey`) demands that the charge
+  digits be convertible by `int()`, i.e. at most `Gen.intMaxStrDigits` of them.  Accordingly:
 
-  FULL-STRENGTH statement that is FALSE of the model and of the code (kept for reference):
-      ∀ d, validateDict d = none → ∀ Tb, Table.ofDict d.toConstraints = some Tb →
-        ∀ x ∈ robustAlphabet d.toConstraints, x is accepted by the decoder's dispatch
-  refuted by `C07_long_charge_witness`.
+  * `C07_atom_symbols_valid` is now proved at FULL strength: the former proviso "at most
+    `Gen.intMaxStrDigits` charge digits" is derived from the key being valid
+    (`C07_key_grammar` states the bound);
+  * `C07_atom_symbol_accepted_iff` still holds (for a valid key both sides are now true);
+  * `C07_charge_bound_needed` documents why the bound is needed and that it is exact: for a key
+    `E±C` of the old grammar the atom reader accepts `[bE±C]` iff `C` has at most
+    `Gen.intMaxStrDigits` digits iff the repaired validation accepts the key; beyond the bound
+    `process_atom_symbol` returns `None` under every table;
+  * `C07_long_charge_rejected`, `C07_long_charge_witness`: the keys that exhibited the defect are
+    now REJECTED by `set_semantic_constraints` with `ValueError`, leaving the state unchanged
+    (replayed on the repaired code: `'C+' + '1'*4300` accepted, `'C+' + '1'*4301` ValueError);
+  * `C07_alphabet_symbols_valid`: the clean end statement - every symbol of the alphabet of every
+    accepted table is accepted by the decoder's dispatch cascade (`validSymbol`), which is the
+    hypothesis of `C07_no_error` (Props/C08.lean); the composition over arbitrary histories and
+    arbitrary strings over the alphabet is in Props/C07f.lean.
 -/
 import SelfiesVerif.Proofs.Alphabet
+import SelfiesVerif.Proofs.AlphabetValid
 
 namespace SV
 
@@ -141,16 +153,19 @@ theorem C07_accepted_table_total {d : PyDict} (hd : validateDict d = none) :
 example : validateDict (constraintsToPyDict Gen.preset_default) = none := by decide +kernel
 
 /-- **Key grammar.**  Every key of an accepted table other than `?` is `E`, `E+C` or `E-C` with
-    `E ∈ ELEMENTS` and `C` matching `[1-9][0-9]*` (ASCII digits); every element name matches
-    `[A-Z][a-z]?`. -/
+    `E ∈ ELEMENTS` and `C` matching `[1-9][0-9]*` (ASCII digits) with at most
+    `Gen.intMaxStrDigits` digits (so that `int(C)` converts: repair of F10); every element name
+    matches `[A-Z][a-z]?`. -/
 theorem C07_key_grammar {d : PyDict} (hd : validateDict d = none) {k : Str} {c : Nat}
     (hkc : (k, c) ∈ d.toConstraints) (hq : k ≠ "?".toList) :
     (k ∈ Gen.elements ∨
       ∃ E sgn dg ds, k = E ++ sgn :: dg :: ds ∧ E ∈ Gen.elements ∧ (sgn = '+' ∨ sgn = '-')
-        ∧ isDigit19 dg = true ∧ ds.all isAsciiDigit = true)
+        ∧ isDigit19 dg = true ∧ ds.all isAsciiDigit = true
+        ∧ (dg :: ds).length ≤ Gen.intMaxStrDigits)
+    ∧ (keyChargeDigits k).length ≤ Gen.intMaxStrDigits
     ∧ ∀ E ∈ Gen.elements, ∃ e1 : Char, isAsciiUpper e1 = true ∧
         (E = [e1] ∨ ∃ e2 : Char, isAsciiLower e2 = true ∧ E = [e1, e2]) := by
-  constructor
+  refine ⟨?_, validKey_chargeDigits_le (validateDict_keys hd hkc) hq, ?_⟩
   · rcases validKey_cases (validateDict_keys hd hkc) hq with h | ⟨E, sgn, dg, ds, h1, h2, h3⟩
     · exact Or.inl (by simpa [memStr] using h)
     · exact Or.inr ⟨E, sgn, dg, ds, h1, by simpa [memStr] using h2, h3⟩
@@ -164,15 +179,21 @@ theorem C07_key_grammar {d : PyDict} (hd : validateDict d = none) {k : Str} {c :
       simp only [elemOK, Bool.and_eq_true] at hok
       exact ⟨e1, hok.1.1.1.1.1.1.1.1, Or.inr ⟨e2, hok.1.1.2, rfl⟩⟩
 
-example : (["Fe+10".toList, "C".toList, "Zn-2".toList].all validKey) = true
-    ∧ (["C+01".toList, "C+".toList, "+1".toList, "c".toList, "C+1-1".toList, "Xx".toList].any validKey)
-        = false := by decide +kernel
+-- non-vacuity: accepted and rejected keys, including the boundary of the charge length
+set_option maxRecDepth 100000 in
+example : (["Fe+10".toList, "C".toList, "Zn-2".toList,
+            "C+".toList ++ List.replicate Gen.intMaxStrDigits '1'].all validKey) = true
+    ∧ (["C+01".toList, "C+".toList, "+1".toList, "c".toList, "C+1-1".toList, "Xx".toList,
+        "C+".toList ++ List.replicate (Gen.intMaxStrDigits + 1) '1'].any validKey)
+        = false
+    ∧ validateDict [(.str ("C+".toList ++ List.replicate Gen.intMaxStrDigits '1'), .int 1),
+                    (.str "?".toList, .int 8)] = none := by decide +kernel
 
 /--
-**Atom symbols (partial: proviso on the number of charge digits).**
+**Atom symbols (full strength; F10 repaired).**
 Let `d` be an accepted dictionary, `T` the table stored from it and `Tb` its total form.  For an
 entry `k ↦ c` of `T` with `k ≠ ?` and a bond prefix `b` of order `m ≤ c`, the alphabet symbol
-`x = [bk]` — PROVIDED the charge in `k` has at most `Gen.intMaxStrDigits` digits —
+`x = [bk]`
 
 * is in the alphabet, is not mistaken for a branch / ring / epsilon symbol by the decoder, and
 * `process_atom_symbol` accepts it with bond order `m`, no stereo, and an atom `a` that is not
@@ -184,15 +205,14 @@ entry `k ↦ c` of `T` with `k ≠ ?` and a bond prefix `b` of order `m ≤ c`, 
 * its bonding capacity is the first value stored under `k` — which is `c` itself when the keys
   of the table are distinct, as they are in a Python `dict` — and then `m ≤` capacity.
 
-What is missing for full strength: the proviso `hlen`; it cannot be dropped
-(`C07_long_charge_witness`).
+No proviso on the number of charge digits: the repaired validation guarantees that `int()`
+converts the charge (`validKey_chargeDigits_le`).
 -/
-theorem C07_atom_symbols_valid_partial {d : PyDict} (hd : validateDict d = none) {Tb : Table}
+theorem C07_atom_symbols_valid {d : PyDict} (hd : validateDict d = none) {Tb : Table}
     (hT : Table.ofDict d.toConstraints = some Tb)
     {k : Str} {c : Nat} (hkc : (k, c) ∈ d.toConstraints) (hq : k ≠ "?".toList)
     {b : Str} {m : Nat} (hb : (b, m) ∈ [("".toList, 1), ("=".toList, 2), ("#".toList, 3)])
-    (hmc : m ≤ c)
-    (hlen : (keyChargeDigits k).length ≤ Gen.intMaxStrDigits) :
+    (hmc : m ≤ c) :
     let x : Str := '[' :: b ++ k ++ [']']
     x ∈ robustAlphabet d.toConstraints
     ∧ sliceFromEnd x 4 2 ≠ "ch".toList ∧ sliceFromEnd x 4 2 ≠ "ng".toList
@@ -211,7 +231,7 @@ theorem C07_atom_symbols_valid_partial {d : PyDict} (hd : validateDict d = none)
   have hb' : (b, m) ∈ bondPrefixes := hb
   have hk := validateDict_keys hd hkc
   obtain ⟨h1, h2, h3, h4, _⟩ := atomSymbol_spec hk hq' hb'
-  obtain ⟨a, ha⟩ := h4 hlen
+  obtain ⟨a, ha⟩ := h4 (validKey_chargeDigits_le hk hq')
   have hcap : ∀ c', lookup k d.toConstraints = some c' → a.bondingCapacity Tb = c' := by
     intro c' hc'
     have h0 : a.hCount.getD 0 = 0 := by rcases ha.hCount with h | h <;> rw [h] <;> rfl
@@ -254,15 +274,15 @@ example :
     ∧ (constraintsToPyDict Gen.preset_default).toConstraints = Gen.preset_default
     ∧ ("N+1".toList, 4) ∈ Gen.preset_default
     ∧ (Gen.preset_default.map (·.1)).Nodup
-    ∧ (keyChargeDigits "N+1".toList).length ≤ Gen.intMaxStrDigits
     ∧ processAtomSymbol ⟨Gen.preset_default, 8⟩ "[#N+1]".toList
         = some ((3, none), { element := "N".toList, isAromatic := false, isotope := none,
                              chirality := none, hCount := some 0, charge := 1 }) := by
   decide +kernel
 
-/-- **The proviso is exact.**  For a key of an accepted table and a bond prefix, the symbol `[bk]`
-    is accepted by `_process_atom_selfies_no_cache` iff the charge has at most
-    `Gen.intMaxStrDigits` digits. -/
+/-- **Accepted iff convertible.**  For a valid key and a bond prefix, the symbol `[bk]` is accepted
+    by `_process_atom_selfies_no_cache` iff the charge has at most `Gen.intMaxStrDigits` digits.
+    (Since the repair of F10 both sides hold for every valid key; the statement for keys of the
+    old, unbounded grammar is `C07_charge_bound_needed`.) -/
 theorem C07_atom_symbol_accepted_iff {k : Str} (hk : validKey k = true) (hq : k ≠ "?".toList)
     {b : Str} {m : Nat} (hb : (b, m) ∈ [("".toList, 1), ("=".toList, 2), ("#".toList, 3)]) :
     (processAtomSelfiesNoCache ('[' :: b ++ k ++ [']'])).isSome = true
@@ -286,53 +306,173 @@ example : validKey "Fe+10".toList = true ∧ keyChargeDigits "Fe+10".toList = "1
     ∧ keyChargeDigits "Fe".toList = [] ∧ (processAtomSelfiesNoCache "[=Fe+10]".toList).isSome = true := by
   decide +kernel
 
-/-- **Long charges are rejected** (FINDING).  A key the grammar accepts whose charge has more
-    than `Gen.intMaxStrDigits` digits yields alphabet symbols on which `int()` fails, so
-    `_process_atom_selfies_no_cache` returns `None` and the decoder rejects the symbol under
-    every table. -/
-theorem C07_long_charge_rejected {k : Str} (hk : validKey k = true) (hq : k ≠ "?".toList)
-    {b : Str} {m : Nat} (hb : (b, m) ∈ [("".toList, 1), ("=".toList, 2), ("#".toList, 3)])
-    (hlen : Gen.intMaxStrDigits < (keyChargeDigits k).length) :
-    processAtomSelfiesNoCache ('[' :: b ++ k ++ [']']) = none
-    ∧ ∀ Tb : Table, processAtomSymbol Tb ('[' :: b ++ k ++ [']']) = none := by
-  have hq' : k ≠ qKey := hq
+/-- **Why the bound is needed, and that it is exact.**  Take a key `k = E±C` of the grammar as it
+    was before the repair (`E ∈ ELEMENTS`, `C` matching `[1-9][0-9]*`, any number of digits) and a
+    bond prefix `b`.  Then `_process_atom_selfies_no_cache` accepts `[bk]` iff `C` has at most
+    `Gen.intMaxStrDigits` digits (beyond that `int(C)` raises and the reader returns `None`,
+    under every table), and the repaired validation accepts `k` under exactly the same
+    condition. -/
+theorem C07_charge_bound_needed {E : Str} (hE : E ∈ Gen.elements) {sgn dg : Char} {ds : Str}
+    (hs : sgn = '+' ∨ sgn = '-') (hd : isDigit19 dg = true) (hds : ds.all isAsciiDigit = true)
+    {b : Str} {m : Nat} (hb : (b, m) ∈ [("".toList, 1), ("=".toList, 2), ("#".toList, 3)]) :
+    let k : Str := E ++ sgn :: dg :: ds
+    ((processAtomSelfiesNoCache ('[' :: b ++ k ++ [']'])).isSome = true
+        ↔ (dg :: ds).length ≤ Gen.intMaxStrDigits)
+    ∧ (validKey k = true ↔ (dg :: ds).length ≤ Gen.intMaxStrDigits)
+    ∧ (Gen.intMaxStrDigits < (dg :: ds).length →
+        processAtomSelfiesNoCache ('[' :: b ++ k ++ [']']) = none
+        ∧ ∀ Tb : Table, processAtomSymbol Tb ('[' :: b ++ k ++ [']']) = none) := by
+  intro k
+  have hE' : memStr E Gen.elements = true := by simpa [memStr] using hE
   have hb' : (b, m) ∈ bondPrefixes := hb
-  obtain ⟨_, _, _, _, h5⟩ := atomSymbol_spec hk hq' hb'
-  have := h5 hlen
+  have hshape : KeyShape k := Or.inr ⟨E, sgn, dg, ds, rfl, hE', hs, hd, hds⟩
+  have hkd : keyChargeDigits k = dg :: ds := keyChargeDigits_charged (elemOK_of_mem hE') hs _
+  obtain ⟨_, _, _, h4, h5⟩ := atomSymbol_spec_shape hshape hb'
+  rw [hkd] at h4 h5
   have e : '[' :: b ++ k ++ [']'] = ['['] ++ b ++ k ++ [']'] := rfl
-  rw [e]
-  exact ⟨this, fun Tb => by unfold processAtomSymbol; rw [this]⟩
+  have hnone : Gen.intMaxStrDigits < (dg :: ds).length →
+      processAtomSelfiesNoCache ('[' :: b ++ k ++ [']']) = none := fun h => by rw [e]; exact h5 h
+  refine ⟨⟨fun h => ?_, fun h => ?_⟩, ?_, fun h => ⟨hnone h, fun Tb => ?_⟩⟩
+  · by_cases hl : (dg :: ds).length ≤ Gen.intMaxStrDigits
+    · exact hl
+    · rw [hnone (by omega)] at h; cases h
+  · obtain ⟨a, ha⟩ := h4 h
+    rw [e, ha.parse]; rfl
+  · rw [validKey_charged_eq hE' hs hd hds, decide_eq_true_eq]
+  · unfold processAtomSymbol; rw [hnone h]
 
-/-- **Witness** (replayed on the real code): the dictionary `{"C+1000…0": 1, "?": 8}` whose
-    charge has `Gen.intMaxStrDigits + 1` digits is accepted by `set_semantic_constraints`, its
-    alphabet contains `[C+1000…0]`, and the decoder rejects that symbol under every table. -/
+-- non-vacuity (small instance of the hypotheses; the long instance is `C07_long_charge_witness`)
+example : "Fe".toList ∈ Gen.elements ∧ isDigit19 '1' = true ∧ "0".toList.all isAsciiDigit = true
+    ∧ (processAtomSelfiesNoCache "[=Fe+10]".toList).isSome = true
+    ∧ validKey "Fe+10".toList = true := by decide +kernel
+
+/-- **Long charges are rejected by `set_semantic_constraints`** (F10 repaired).  A key `E±C` whose
+    charge has more than `Gen.intMaxStrDigits` digits fails the key grammar; every dict with `str`
+    keys that contains it makes `set_semantic_constraints` raise `ValueError` and leave the
+    library state untouched; and no accepted table contains such a key at all. -/
+theorem C07_long_charge_rejected {E : Str} (hE : E ∈ Gen.elements) {sgn dg : Char} {ds : Str}
+    (hs : sgn = '+' ∨ sgn = '-') (hd : isDigit19 dg = true) (hds : ds.all isAsciiDigit = true)
+    (hlen : Gen.intMaxStrDigits < (dg :: ds).length) :
+    let k : Str := E ++ sgn :: dg :: ds
+    validKey k = false
+    ∧ (∀ (d : PyDict) (v : PyVal), (∀ kv ∈ d, ∃ s, kv.1 = PyKey.str s) → (PyKey.str k, v) ∈ d →
+        validateDict d = some .ValueError)
+    ∧ (∀ (st : CfgState) (ref : Nat) (v : PyVal),
+        (∀ kv ∈ st.dictOf ref, ∃ s, kv.1 = PyKey.str s) → (PyKey.str k, v) ∈ st.dictOf ref →
+        setConstraints st (.dict ref) = (st, .error .ValueError))
+    ∧ (∀ (d : PyDict), validateDict d = none → ∀ c, (k, c) ∉ d.toConstraints) := by
+  intro k
+  have hE' : memStr E Gen.elements = true := by simpa [memStr] using hE
+  have hk : validKey k = false := validKey_long_charge hE' hs hd hds hlen
+  refine ⟨hk, fun d v hstr hmem => validateDict_invalid_key hstr hmem hk,
+    fun st ref v hstr hmem => setConstraints_rejected (validateDict_invalid_key hstr hmem hk),
+    fun d hd' c hkc => ?_⟩
+  have := validateDict_keys hd' hkc
+  rw [hk] at this; cases this
+
+-- non-vacuity: the hypotheses hold of `C+1000…0` with `Gen.intMaxStrDigits + 1` charge digits,
+-- a key the unrepaired grammar accepted
+set_option maxRecDepth 100000 in
+example : "C".toList ∈ Gen.elements ∧ isDigit19 '1' = true
+    ∧ (List.replicate Gen.intMaxStrDigits '0').all isAsciiDigit = true
+    ∧ Gen.intMaxStrDigits < ('1' :: List.replicate Gen.intMaxStrDigits '0').length
+    ∧ validKey ("C+1".toList ++ List.replicate Gen.intMaxStrDigits '0') = false
+    ∧ validKey ("C+1".toList ++ List.replicate (Gen.intMaxStrDigits - 1) '0') = true := by
+  decide +kernel
+
+/-- **Witness** (replayed on the repaired code).  The dictionary `{"C+1000…0": 1, "?": 8}` whose
+    charge has `Gen.intMaxStrDigits + 1` digits - which the unrepaired library accepted although
+    the decoder rejects its alphabet symbol `[C+1000…0]` under every table - is now rejected by
+    `set_semantic_constraints` with `ValueError`, in every state, and the state is unchanged.
+    With one digit fewer (`Gen.intMaxStrDigits` digits) the dictionary is accepted, its alphabet
+    contains `[C+100…0]`, and the decoder's atom reader accepts that symbol. -/
 theorem C07_long_charge_witness :
     let k : Str := "C+1".toList ++ List.replicate Gen.intMaxStrDigits '0'
     let d : PyDict := [(PyKey.str k, PyVal.int 1), (PyKey.str "?".toList, PyVal.int 8)]
-    validateDict d = none
-    ∧ '[' :: k ++ [']'] ∈ robustAlphabet d.toConstraints
-    ∧ ∀ Tb : Table, processAtomSymbol Tb ('[' :: k ++ [']']) = none := by
-  intro k d
-  have hds : (List.replicate Gen.intMaxStrDigits '0').all isAsciiDigit = true := by
-    rw [List.all_eq_true]; intro x hx
+    let k' : Str := "C+1".toList ++ List.replicate (Gen.intMaxStrDigits - 1) '0'
+    let d' : PyDict := [(PyKey.str k', PyVal.int 1), (PyKey.str "?".toList, PyVal.int 8)]
+    validateDict d = some .ValueError
+    ∧ (∀ (st : CfgState) (ref : Nat), st.dictOf ref = d →
+        setConstraints st (.dict ref) = (st, .error .ValueError))
+    ∧ (∀ Tb : Table, processAtomSymbol Tb ('[' :: k ++ [']']) = none)
+    ∧ validateDict d' = none
+    ∧ '[' :: k' ++ [']'] ∈ robustAlphabet d'.toConstraints
+    ∧ (∀ Tb : Table, Table.ofDict d'.toConstraints = some Tb →
+        ∃ a : Atom, processAtomSymbol Tb ('[' :: k' ++ [']']) = some ((1, none), a)
+          ∧ capKey a.element a.charge = k') := by
+  intro k d k' d'
+  have hpos : 0 < Gen.intMaxStrDigits := by decide
+  have hds : ∀ n, (List.replicate n '0').all isAsciiDigit = true := by
+    intro n; rw [List.all_eq_true]; intro x hx
     rw [(List.mem_replicate.1 hx).2]; decide
-  have hk : validKey k = true :=
-    validKey_charged (E := ['C']) (by decide) (Or.inl rfl) (d := '1') (by decide) hds
-  have hq : k ≠ "?".toList := by
-    intro h
-    have := congrArg List.length h
-    simp [k] at this
-  have hlen : Gen.intMaxStrDigits < (keyChargeDigits k).length := by
-    have : keyChargeDigits k = '1' :: List.replicate Gen.intMaxStrDigits '0' :=
-      keyChargeDigits_charged (E := ['C']) (by decide) (Or.inl rfl) _
-    rw [this]; simp
-  refine ⟨?_, ?_, ?_⟩
-  · have hq2 : validKey ['?'] = true := by decide
-    simp [d, validateDict, validateDict.go, hk, hq2, PyVal.validCapacity, qKey]
-  · refine mem_robustAlphabet.2 (Or.inl (mem_atomSyms.2
-      ⟨k, 1, ?_, hq, [], 1, by decide, Nat.le_refl _, rfl⟩))
-    simp [d, PyDict.toConstraints, PyVal.toNat]
-  · exact (C07_long_charge_rejected hk hq (b := []) (m := 1) (by decide) hlen).2
+  have hC : "C".toList ∈ Gen.elements := by decide
+  have hlen : Gen.intMaxStrDigits < ('1' :: List.replicate Gen.intMaxStrDigits '0').length := by
+    simp
+  obtain ⟨_, hrej, _, _⟩ :=
+    C07_long_charge_rejected hC (sgn := '+') (Or.inl rfl) (dg := '1') (by decide)
+      (hds Gen.intMaxStrDigits) hlen
+  have hd : validateDict d = some .ValueError :=
+    hrej d (.int 1) (by intro kv hkv; simp only [d, List.mem_cons, List.not_mem_nil, or_false] at hkv
+                        rcases hkv with rfl | rfl <;> exact ⟨_, rfl⟩)
+      (List.mem_cons_self ..)
+  have hnone := (C07_charge_bound_needed hC (sgn := '+') (Or.inl rfl) (dg := '1') (by decide)
+      (hds Gen.intMaxStrDigits) (b := []) (m := 1) (by decide)).2.2 hlen
+  -- the boundary dictionary
+  have hlen' : ('1' :: List.replicate (Gen.intMaxStrDigits - 1) '0').length ≤ Gen.intMaxStrDigits := by
+    simp; omega
+  have hk' : validKey k' = true :=
+    validKey_charged (E := ['C']) (by decide) (Or.inl rfl) (d := '1') (by decide)
+      (hds _) hlen'
+  have hq' : k' ≠ "?".toList := by
+    intro h; have := congrArg List.length h; simp [k'] at this
+  have hd' : validateDict d' = none := by
+    have hq2 : validKey ['?'] = true := by decide
+    simp [d', validateDict, validateDict.go, hk', hq2, PyVal.validCapacity, qKey]
+  have hmem' : (k', 1) ∈ d'.toConstraints := by
+    simp [d', PyDict.toConstraints, PyVal.toNat]
+  refine ⟨hd, fun st ref he => setConstraints_rejected (he ▸ hd), hnone.2, hd', ?_, ?_⟩
+  · exact mem_robustAlphabet.2 (Or.inl (mem_atomSyms.2
+      ⟨k', 1, hmem', hq', [], 1, by decide, Nat.le_refl _, rfl⟩))
+  · intro Tb hT
+    obtain ⟨_, _, _, _, a, ha, _, _, _, _, _, _, hcap, _⟩ :=
+      C07_atom_symbols_valid hd' hT hmem' hq' (b := []) (m := 1) (by decide) (Nat.le_refl _)
+    exact ⟨a, ha, hcap⟩
+
+/-! ### end statement: every symbol of the alphabet is accepted by the decoder -/
+
+/-- **Every alphabet symbol is valid** (F10 repaired).  For every dictionary `d` that
+    `set_semantic_constraints` accepts, with `T` the table stored from it and `Tb` its total form,
+    EVERY symbol of `get_semantic_robust_alphabet()` is accepted by the dispatch cascade of
+    `_derive_mol_from_symbols` under `Tb` (`validSymbol`: a branch-tagged symbol in the branch
+    table, a ring-tagged symbol in the ring table, or an atom symbol with
+    `process_atom_symbol(x) is not None`), and is a bracketed symbol without inner bracket or dot
+    (so that the tokenizer returns it unchanged).  This is the hypothesis of `C07_no_error`. -/
+theorem C07_alphabet_symbols_valid {d : PyDict} (hd : validateDict d = none) {Tb : Table}
+    (hT : Table.ofDict d.toConstraints = some Tb) :
+    ∀ x ∈ robustAlphabet d.toConstraints, validSymbol Tb x = true ∧ IsSymbol x := by
+  intro x hx
+  refine ⟨?_, isSymbol_robustAlphabet
+    (fun k c hkc hq => validKey_shape (validateDict_keys hd hkc) hq) x hx⟩
+  rcases mem_robustAlphabet.1 hx with h | h | h
+  · obtain ⟨k, c, hkc, hq, b, m, hb, hmc, rfl⟩ := mem_atomSyms.1 h
+    obtain ⟨_, h1, h2, _, a, ha, _⟩ := C07_atom_symbols_valid hd hT hkc hq hb hmc
+    exact validSymbol_atom h1 h2 (by
+      have e : ['['] ++ b ++ k ++ [']'] = '[' :: b ++ k ++ [']'] := rfl
+      rw [e, ha]; rfl)
+  · exact validSymbol_structSyms Tb x h
+  · rcases C07_structural_symbols_valid.2.2.2.2 x h with h' | h' | ⟨h1, h2, _, bi, a, _, _, ha⟩
+    · exact validSymbol_structSyms Tb x (mem_structSyms.2 (Or.inl h'))
+    · exact validSymbol_structSyms Tb x (mem_structSyms.2 (Or.inr h'))
+    · exact validSymbol_atom h1 h2 (by rw [ha Tb]; rfl)
+
+-- non-vacuity: the default table is accepted, its alphabet has 69 symbols, all of them valid
+example : validateDict (constraintsToPyDict Gen.preset_default) = none
+    ∧ Table.ofDict (constraintsToPyDict Gen.preset_default).toConstraints
+        = some ⟨Gen.preset_default, 8⟩
+    ∧ (robustAlphabet (constraintsToPyDict Gen.preset_default).toConstraints).length = 69
+    ∧ validSymbol ⟨Gen.preset_default, 8⟩ "[#N+1]".toList = true
+    ∧ validSymbol ⟨Gen.preset_default, 8⟩ "[Xx]".toList = false
+    ∧ validSymbol ⟨Gen.preset_default, 8⟩ "[CH9]".toList = false := by decide +kernel
 
 /-! ### the alphabet reflects the table in force -/
 
